@@ -702,6 +702,8 @@ func main() {
 			c.Count("unifier.lifecycle")
 		}
 	}
+	// ---- one long-lived EndpointManager / LifecycleUnifier through histories over several endpoints (manager.go)
+	emitManagerCases(c, r, thorough)
 	L := 6
 	if thorough {
 		L = 8
